@@ -43,6 +43,10 @@ func (d *DBFT[H]) sendPrepareRequest(force bool) {
 	d.unsubscribeFromTransactions()
 
 	d.PreparationPayloads[d.MyIndex] = msg
+	// Payloads received before our own PrepareRequest was created (responses
+	// naming some other proposal, commits and preCommits) could not be validated
+	// at that time, do it now.
+	d.updateExistingPayloads(msg)
 	d.broadcast(msg)
 
 	d.prepareSentTime = d.Timer.Now()
